@@ -472,6 +472,16 @@ class Gen:
         """an API call the transaction must reject; the whole transaction is then abandoned"""
         r = self.rng.random()
         metrics, alerts = self.live('metric'), self.live('alert')
+        if self.ctx_states and self.rng.random() < 0.25:
+            # a context state handle that exists already: mk_context_state / add_state must refuse, whatever went before
+            h = self.rng.choice(sorted(self.ctx_states))
+            dh = self.ctx_states[h]
+            acts = [['mk', dh, h, self.rng.random() < 0.5, self.fresh()]]
+            others = [o for o in self.ctx_of(dh) if o != h]
+            if others and self.rng.random() < 0.5:
+                acts.insert(0, ['get', self.rng.choice(others), self.fresh(), None])
+            return {'k': 'ctx', 'iface': 'classic', 'actions': acts, 'add_state': self.rng.random() < 0.6, 'expect': 'reject',
+                    'tag': ['existing-ctx-handle']}
         if r < 0.2:
             return {'k': 'state', 'tx': 'metric', 'items': [['no_such_handle', 1]], 'expect': 'reject'}
         if r < 0.4 and alerts:
